@@ -1,13 +1,20 @@
 (** Model of [CoroutineLocal] (core/src/coroutine/local.rs) as reached through a coroutine
     ([Deref] in core/src/coroutine/mod.rs), as the code is now.
 
-    A stored value lives in a leaked [Box]; the map of a coroutine holds key -> address. A heap
-    cell is modelled by the pair (identity, current value): the identity is fixed when the value is
-    put, the value may be rewritten in place through [get_mut]. [put] over an existing key and
-    [remove] move the value out of its box (the box is freed, the value handed to the caller).
-    [CoroutineLocal] has no [Drop] of its own: dropping the coroutine frees the map only, the
-    boxes it pointed to stay allocated and the destructors of the values never run.
-    [st_live] is a ghost: the identities of the boxes allocated and not freed. *)
+    A stored value lives in a leaked [Box]; the map of a coroutine holds key -> (address, release
+    function of the value's type). A heap cell is modelled by the pair (identity, current value):
+    the identity is fixed when the value is put, the value may be rewritten in place through
+    [get_mut]. [put] over an existing key and [remove] move the value out of its box (the box is
+    freed, the value handed to the caller). [Drop for CoroutineLocal] empties the map and releases
+    every box it held: the destructors of the values still stored run when the coroutine is
+    dropped. The order in which [DashMap] yields them is unspecified; the destructor runs of one
+    call are reported sorted by identity, by the harness and by the model.
+    [st_live] is a ghost: the identities of the boxes allocated and not freed.
+
+    The parameter [rel] of [step] is [true] for the code as it is. [rel = false] is the code
+    before the repair of finding #27 ([CoroutineLocal] had no [Drop]: dropping the coroutine freed
+    the map only, the boxes stayed allocated and no destructor ran); it is kept for the
+    [old_*] statements only. *)
 From OCV Require Import Base.Prelude.
 Open Scope Z_scope.
 
@@ -69,6 +76,18 @@ Fixpoint del (x : Z) (l : list Z) : list Z :=
 Definition free (old : option cell) (live : list Z) : list Z :=
   match old with Some (id, _) => del id live | None => live end.
 
+(** identities of the values a map holds *)
+Definition ids (m : lmap) : list Z := map (fun kc => fst (snd kc)) m.
+
+Definition del_list (xs live : list Z) : list Z := fold_left (fun l x => del x l) xs live.
+
+Fixpoint insert_sorted (x : Z) (l : list Z) : list Z :=
+  match l with
+  | [] => [x]
+  | y :: l' => if x <=? y then x :: l else y :: insert_sorted x l'
+  end.
+Definition sortZ (l : list Z) : list Z := fold_right insert_sorted [] l.
+
 Inductive op :=
 | Put (c k id v : Z)      (* coroutine c: put(key k, value v); the new box gets identity id *)
 | Get (c k : Z)
@@ -93,58 +112,53 @@ Definition get_co (s : state) (c : Z) : option co :=
 Definition set_map (s : state) (c : Z) (m : lmap) (live : list Z) : state :=
   {| st_cos := upd (st_cos s) (Z.to_nat c) {| co_alive := true; co_map := m |}; st_live := live |}.
 
-(** one call; the [bool] says that the call took the branch of finding #27 (a coroutine dropped
-    while its map still holds values: they are leaked, no destructor runs) *)
-Definition step (s : state) (o : op) : state * obs * bool :=
+(** one call *)
+Definition step (rel : bool) (s : state) (o : op) : state * obs :=
   match o with
   | Put c k id v =>
       match get_co s c with
-      | None => (s, OBad, false)
+      | None => (s, OBad)
       | Some x =>
           let '(m, old) := lm_insert (co_map x) k (id, v) in
-          (set_map s c m (id :: free old (st_live s)), ORes old [], false)
+          (set_map s c m (id :: free old (st_live s)), ORes old [])
       end
   | Get c k =>
       match get_co s c with
-      | None => (s, OBad, false)
-      | Some x => (s, ORes (lm_get (co_map x) k) [], false)
+      | None => (s, OBad)
+      | Some x => (s, ORes (lm_get (co_map x) k) [])
       end
   | GetMut c k v =>
       match get_co s c with
-      | None => (s, OBad, false)
-      | Some x => (set_map s c (lm_write (co_map x) k v) (st_live s), ORes (lm_get (co_map x) k) [], false)
+      | None => (s, OBad)
+      | Some x => (set_map s c (lm_write (co_map x) k v) (st_live s), ORes (lm_get (co_map x) k) [])
       end
   | Remove c k =>
       match get_co s c with
-      | None => (s, OBad, false)
+      | None => (s, OBad)
       | Some x =>
           let '(m, old) := lm_remove (co_map x) k in
-          (set_map s c m (free old (st_live s)), ORes old [], false)
+          (set_map s c m (free old (st_live s)), ORes old [])
       end
   | DropCo c =>
       match get_co s c with
-      | None => (s, OBad, false)
+      | None => (s, OBad)
       | Some x =>
-          ({| st_cos := upd (st_cos s) (Z.to_nat c) dead; st_live := st_live s |},
-           ODrop [],
-           match co_map x with [] => false | _ => true end)
+          let held := ids (co_map x) in
+          if rel
+          then ({| st_cos := upd (st_cos s) (Z.to_nat c) dead; st_live := del_list held (st_live s) |},
+                ODrop (sortZ held))
+          else ({| st_cos := upd (st_cos s) (Z.to_nat c) dead; st_live := st_live s |}, ODrop [])
       end
   end.
 
-Fixpoint run_from (s : state) (ops : list op) : list obs :=
+Fixpoint run_from (rel : bool) (s : state) (ops : list op) : list obs :=
   match ops with
   | [] => []
-  | o :: ops' => let '(s', r, _) := step s o in r :: run_from s' ops'
+  | o :: ops' => let '(s', r) := step rel s o in r :: run_from rel s' ops'
   end.
 
-Fixpoint leaks_from (s : state) (ops : list op) : bool :=
-  match ops with
-  | [] => false
-  | o :: ops' => let '(s', _, d) := step s o in d || leaks_from s' ops'
-  end.
-
-Fixpoint final_from (s : state) (ops : list op) : state :=
+Fixpoint final_from (rel : bool) (s : state) (ops : list op) : state :=
   match ops with
   | [] => s
-  | o :: ops' => let '(s', _, _) := step s o in final_from s' ops'
+  | o :: ops' => let '(s', _) := step rel s o in final_from rel s' ops'
   end.
